@@ -36,7 +36,7 @@ type c16Prog struct {
 }
 
 func runC16(r *vc.Run, replay string) {
-	r.Rule = "programs = sequences of queries, DML (literal and bound arguments, duplicate keys, syntax errors, unknown tables), prepared statements (exec/query reuse, close), explicit local transactions (default / isolation level / read-only options; commit or rollback), pinned connections, multi-statement texts and DDL (create/alter/drop); each program runs through the AT proxy, the XA proxy and the bare driver on identical databases, with interpolated and with server-side parameters, optionally with the server closing idle pooled connections in between; outside a global transaction: identical statement journal (text, arguments, order), identical step results, no coordinator traffic; inside a global transaction (AT, committed): identical business statement results and identical committed data, business statements reach the database in the same order; distinct_nontrivial = distinct (mode, proxy, step kinds, dsn flavour) signatures"
+	r.Rule = "programs = sequences of queries, DML (literal and bound arguments, duplicate keys, syntax errors, unknown tables), prepared statements (exec/query reuse, close), explicit local transactions (default / isolation level / read-only options; commit or rollback), pinned connections, multi-statement texts and DDL (create/alter/drop); each program runs through the AT proxy, the XA proxy and the bare driver on identical databases, with interpolated parameters and (outside global transactions) with the driver's default server-side parameters, optionally with the server closing idle pooled connections in between; outside a global transaction: identical statement journal (text, arguments, order), identical step results, no coordinator traffic; inside a global transaction (AT, committed): identical business statement results and identical committed data, business statements reach the database in the same order; distinct_nontrivial = distinct (mode, proxy, step kinds, dsn flavour) signatures"
 	r.Assumptions = []string{"error values are compared by MySQL error number and text", "undo_log statements (the asynchronous commit worker deletes the logs of earlier global transactions at its own pace) and metadata lookups are transactional duties and are left out of the journal comparison", "statements the proxy issues when a connection is first opened (SELECT VERSION() and the like) are outside the compared window only if they precede the first program on that pool"}
 	n := 600
 	if r.Tier == "thorough" {
@@ -46,9 +46,9 @@ func runC16(r *vc.Run, replay string) {
 		n = v
 	}
 	var wg sync.WaitGroup
-	// the DSN carries interpolateParams=true, as every DSN in seata-go's documentation, samples and tests does; the
-	// batches differ in their random stream only
-	for bi, interp := range []bool{true, true} {
+	// one batch with interpolateParams=true (as every DSN in seata-go's documentation, samples and tests), one with
+	// the driver's default (bound arguments travel through server-side prepared statements)
+	for bi, interp := range []bool{true, false} {
 		wg.Add(1)
 		go func(bi int, interp bool) {
 			defer wg.Done()
@@ -108,7 +108,8 @@ func c16Batch(r *vc.Run, bi int, interp bool, n int) {
 	}
 	c16Drop(env, warm)
 	for i := 0; i < n; i++ {
-		p := c16Gen(rnd, fmt.Sprintf("p%d_%04d", bi, i), i)
+		// server-side parameters: only outside a global transaction (inside one, prepared statements are finding C16-K2)
+		p := c16Gen(rnd, fmt.Sprintf("p%d_%04d", bi, i), i, interp)
 		p.Feat["dsn"] = map[bool]string{true: "interpolate", false: "server-side-params"}[interp]
 		runs := map[string]*c16RunResult{}
 		proxies := []string{"at", "xa"}
@@ -264,10 +265,10 @@ func c16Run(env *c16Env, p *c16Prog, k string) *c16RunResult {
 
 // ---- generator ----
 
-func c16Gen(r *vc.Rand, name string, idx int) *c16Prog {
+func c16Gen(r *vc.Rand, name string, idx int, insideToo bool) *c16Prog {
 	p := &c16Prog{Name: name, Feat: map[string]string{}, KillAt: -1}
 	p.Mode = "outside"
-	if idx%3 == 2 {
+	if idx%3 == 2 && insideToo {
 		p.Mode = "inside"
 	}
 	t := atGenTable(r, name+"_a", []string{"autoinc", "int", "varchar"}[r.Intn(3)], []string{"int", "bigint", "varchar", "double", "datetime"}, 3, 4, true)
